@@ -166,7 +166,12 @@ def _compute_constraints_of_field_reference(expression, ir):
         else:
             type_size = None
         assert referrent_type.has_field("atomic_type"), field
-        assert not referrent_type.atomic_type.reference.canonical_name.module_file
+        if referrent_type.atomic_type.reference.canonical_name.module_file:
+            # There is no scheme for the bounds of user-defined `external` integer
+            # types yet; nothing can be said about their values.
+            expression.type.integer.minimum_value = "-infinity"
+            expression.type.integer.maximum_value = "infinity"
+            return
         _set_integer_constraints_from_physical_type(
             expression, referrent_type, type_size
         )
